@@ -321,6 +321,26 @@ def run(ctx):
             oracle('shared-object', out is None and abs(v - want) <= 1e-6 * max(1.0, abs(want)), 'regularizer-value-depends-on-earlier-models-or-callers', info)
             if what == 'duccio':
                 oracle('shared-object', (v == 0.0) == all(m[1] <= m[2] for m in ms), 'duccio-zero-iff', dict(info, **{'metrics(strength,cost,target)': ms}))
+    # ---- (d6) the attributes of a BaseRegularizer re-assigned between calls (a two-phase schedule: first the size, then the
+    #      operations; a strength sweep on one object): every call is the CURRENT strength x the cost it names NOW
+    for i in range(20 if ctx.quick else 200):
+        cvals = {'params': dy(ctx.rng, 1, 5000, bits=3), 'ops': dy(ctx.rng, 1, 90000, bits=2), 'lat': dy(ctx.rng, 1, 300, bits=4)}
+        s0, n0 = dy(ctx.rng, 0.001, 4, bits=10), ctx.rng.choice(list(cvals))
+        reg = BaseRegularizer(n0, float(s0))
+        hist = []
+        for j in range(ctx.rng.randint(2, 5)):
+            ch = ctx.rng.choice(['name', 'strength', 'both', 'nothing'])
+            if ch in ('name', 'both'):
+                n0 = ctx.rng.choice(list(cvals))
+                reg.cost_name = n0
+            if ch in ('strength', 'both'):
+                s0 = dy(ctx.rng, 0.001, 4, bits=10)
+                reg.strength = float(s0)
+            v = apply_reg(reg, Stub(torch, cvals))
+            hist.append({'reassigned': ch, 'cost_name': n0, 'strength': s0, 'impl': v})
+            basecases.append((s0, cvals[n0], v))
+            oracle('base-reassigned', abs(v - float(s0 * cvals[n0])) <= 1e-6 * max(1.0, float(s0 * cvals[n0])), 'base-not-strength-times-the-cost-it-names-now',
+                   {'costs_of_the_model': cvals, 'calls_so_far(attribute re-assigned before the call, cost_name, strength, value)': list(hist), 'impl': v, 'required': float(s0 * cvals[n0])})
     # ---- (e) real PIT models
     import torch.nn as nn
     from plinio.methods import PIT
@@ -445,6 +465,17 @@ def replay(r):
     info = c.get('case', c)
     print(json.dumps(r, indent=1)[:3000])
     fr = lambda s: Fraction(s) if isinstance(s, str) else Fraction(s)
+    bk = 'calls_so_far(attribute re-assigned before the call, cost_name, strength, value)'
+    if bk in info:
+        cvals = {k: fr(v) for k, v in info['costs_of_the_model'].items()}
+        h0 = info[bk][0]
+        reg, bad = BaseRegularizer(h0['cost_name'], float(fr(h0['strength']))), 0      # (the first call's values stand in for the constructor's)
+        for h in info[bk]:
+            reg.cost_name, reg.strength = h['cost_name'], float(fr(h['strength']))
+            v, w = float(reg(Stub(torch, cvals))), float(fr(h['strength']) * cvals[h['cost_name']])
+            print(h['cost_name'], h['strength'], '->', v, 'required', w)
+            bad += not abs(v - w) <= 1e-6 * max(1.0, abs(w))
+        return 1 if bad else 0
     hk = 'models_so_far(costs, what the caller did with the result, value)'
     if hk in info:
         tg_s = [(fr(s), fr(t)) for s, t in info['metrics(strength,target)']]
